@@ -4,6 +4,12 @@ gen/StatusTable.vos gen/StatusTable.vok gen/StatusTable.required_vos: gen/Status
 theories/Base.vo theories/Base.glob theories/Base.v.beautified theories/Base.required_vo: theories/Base.v 
 theories/Base.vio: theories/Base.v 
 theories/Base.vos theories/Base.vok theories/Base.required_vos: theories/Base.v 
+theories/Capture.vo theories/Capture.glob theories/Capture.v.beautified theories/Capture.required_vo: theories/Capture.v theories/Base.vo
+theories/Capture.vio: theories/Capture.v theories/Base.vio
+theories/Capture.vos theories/Capture.vok theories/Capture.required_vos: theories/Capture.v theories/Base.vos
+theories/CaptureProofs.vo theories/CaptureProofs.glob theories/CaptureProofs.v.beautified theories/CaptureProofs.required_vo: theories/CaptureProofs.v theories/Base.vo theories/Capture.vo
+theories/CaptureProofs.vio: theories/CaptureProofs.v theories/Base.vio theories/Capture.vio
+theories/CaptureProofs.vos theories/CaptureProofs.vok theories/CaptureProofs.required_vos: theories/CaptureProofs.v theories/Base.vos theories/Capture.vos
 theories/Context.vo theories/Context.glob theories/Context.v.beautified theories/Context.required_vo: theories/Context.v theories/Base.vo
 theories/Context.vio: theories/Context.v theories/Base.vio
 theories/Context.vos theories/Context.vok theories/Context.required_vos: theories/Context.v theories/Base.vos
@@ -58,3 +64,6 @@ props/C12.vos props/C12.vok props/C12.required_vos: props/C12.v theories/Base.vo
 props/C13.vo props/C13.glob props/C13.v.beautified props/C13.required_vo: props/C13.v theories/Base.vo theories/Context.vo theories/ContextProofs.vo
 props/C13.vio: props/C13.v theories/Base.vio theories/Context.vio theories/ContextProofs.vio
 props/C13.vos props/C13.vok props/C13.required_vos: props/C13.v theories/Base.vos theories/Context.vos theories/ContextProofs.vos
+props/C18.vo props/C18.glob props/C18.v.beautified props/C18.required_vo: props/C18.v theories/Base.vo theories/Capture.vo theories/CaptureProofs.vo
+props/C18.vio: props/C18.v theories/Base.vio theories/Capture.vio theories/CaptureProofs.vio
+props/C18.vos props/C18.vok props/C18.required_vos: props/C18.v theories/Base.vos theories/Capture.vos theories/CaptureProofs.vos
